@@ -251,7 +251,9 @@ func runC08(r *h.Run) {
 		}
 	}, func(w *h.Worker, x interface{}) {
 		u := x.(c08Unit)
-		w.Begin(func() string { return fmt.Sprintf("C08 sequence keys=%v (all 4 prefix modes, nil / distinct / pairwise-equal / all-equal values)", hexKeys(u.keys)) })
+		w.Begin(func() string {
+			return fmt.Sprintf("C08 sequence keys=%v (all 4 prefix modes, nil / distinct / pairwise-equal / all-equal values)", hexKeys(u.keys))
+		})
 		for _, o := range c08Modes {
 			for _, wv := range []bool{true, false} {
 				w.Evals++
@@ -621,27 +623,34 @@ type c12Unit struct {
 func runC12(r *h.Run) {
 	thorough := r.Tier == "thorough"
 	sp := newSpaceCtx(r.Seed)
-	r.Rule = "record sets = all subsets of U(Sigma4,2) up to the tier's size, the shared scaffold set (257-bit nodes, big-node pair / nibble / alias shapes, short tables, shifts) over K(U21,2), plus regular large sets; Get with strictly increasing offsets in 4 gap patterns (1, 7, 4096, near 2^62); RangeGet with block offsets for every block size 1..min(64,n) (records grouped in input order); every query of Q plus per-key mutations; the reader verifies the key among the records stored at the offset; oracle: (record, true) for indexed keys, (\"\", false) for every other string. A state is a distinct (key set, offsets); non-trivial = at least 2 records"
+	r.Rule = "record sets = all subsets of U(Sigma4,2) up to the tier's size, the shared scaffold set (257-bit nodes, big-node pair / nibble / alias shapes, short tables, shifts) over K(U21,2), plus regular large sets; Get with strictly increasing offsets in 6 patterns (gaps 1, 7, 4096, near 2^62, negative offsets increasing through -1 and 0, near -2^62); RangeGet with block offsets for every block size 1..min(64,n) (records grouped in input order; odd block sizes start at negative offsets); every query of Q plus per-key mutations; the reader verifies the key among the records stored at the offset; oracle: (record, true) for indexed keys, (\"\", false) for every other string. A state is a distinct (key set, offsets); non-trivial = at least 2 records"
 	r.Assumptions = []string{"the reader is a harness-side map from offset to records; an unknown offset reads as not found"}
 	k := 4
 	if thorough {
 		k = 6
 	}
 	r.Bounds["record_sets"] = fmt.Sprintf("K(U21,%d) = %d", k, h.SubsetCount(len(sp.u2), k))
-	gaps := []int64{1, 7, 4096, 1 << 58}
+	gaps := []int64{1, 7, 4096, 1 << 58, -1, -(1 << 58)}
 	work := func(w *h.Worker, x interface{}) {
 		u := x.(c12Unit)
 		w.Begin(func() string { return "C12 " + u.name })
 		n := len(u.keys)
 		for gi, g := range gaps {
-			if u.lite && gi != 1 {
+			if u.lite && gi != 1 && gi != 4 {
 				continue
 			}
 			offs := make([]int64, n)
 			for i := range offs {
-				offs[i] = int64(i)*g + int64(gi)
-				if g == 1<<58 {
+				switch g {
+				case 1 << 58:
 					offs[i] = (1 << 62) - int64(n-i)*3
+				case -1:
+					// an offset is any int64: negative ones, increasing through -1 and 0
+					offs[i] = int64(i) - int64(n/2) - 1
+				case -(1 << 58):
+					offs[i] = -(1 << 62) + int64(i)*5
+				default:
+					offs[i] = int64(i)*g + int64(gi)
 				}
 			}
 			w.Evals++
@@ -666,6 +675,9 @@ func runC12(r *h.Run) {
 			offs := make([]int64, n)
 			for i := range offs {
 				offs[i] = int64(i/bsz) * 4096
+				if bsz%2 == 1 {
+					offs[i] -= 4096 * int64(1+n/bsz/2) // odd block sizes: blocks at negative offsets as well
+				}
 			}
 			w.Evals++
 			w.Tick()
@@ -932,6 +944,37 @@ func c17Families(sp *spaceCtx, thorough bool) map[string][]string {
 		}
 	}
 	fams["caterpillar(n=2,run=16000)"] = cat(2, 16000)
+	// f-ary caterpillars: every inner node has the SAME label bitmap with f labels
+	// (f-1 leaves and the spine), for every f = 2..16 and every number of levels:
+	// one frequent bitmap of every popcount, which is what the short-table cost
+	// model decides on; labels in the low and in the high nibble
+	maxLevels := 30
+	if thorough {
+		maxLevels = 120
+	}
+	for f := 2; f <= 16; f++ {
+		for levels := 1; levels <= maxLevels; levels++ {
+			for _, high := range []bool{false, true} {
+				var keys []string
+				spine := ""
+				lab := func(d int) string {
+					if high {
+						return string([]byte{byte(d)<<4 | 3})
+					}
+					return string([]byte{0x30 | byte(d)})
+				}
+				for l := 0; l < levels; l++ {
+					for d := 0; d < f-1; d++ {
+						keys = append(keys, spine+lab(d))
+					}
+					spine += lab(f - 1)
+				}
+				keys = append(keys, spine)
+				sort.Strings(keys)
+				fams[fmt.Sprintf("fary-caterpillar(f=%d,levels=%d,high=%v)", f, levels, high)] = keys
+			}
+		}
+	}
 	// every node has a long step: binary tree of depth d with 40-byte runs between branches
 	var rec func(prefix string, d int, out *[]string)
 	rec = func(prefix string, d int, out *[]string) {
@@ -1007,7 +1050,7 @@ func c17Families(sp *spaceCtx, thorough bool) map[string][]string {
 func runC17(r *h.Run) {
 	thorough := r.Tier == "thorough"
 	sp := newSpaceCtx(r.Seed)
-	r.Rule = "filter mode, nil values, in every option form that asks for it (no Opt argument and all 24 combinations of DedupValue in {nil,false,true} x InnerPrefix, LeafPrefix, Complete in {nil,false} on the small sets; no-Opt, all-explicit-false and Complete=false alone on the large families): all subsets of U(Sigma4,2) up to the tier's size (K(U85,3) in thorough), all scaffolds of the tier, and adversarial families (binary caterpillars n<=5000 with runs 0..3 and 16000 bytes, every-node-has-a-long-step trees, fan-out-11 byte nodes, all-distinct label bitmaps, testkeys sets, regular sets); for every explored K and every prefix P of the tier's list (1..16000 bytes of each alphabet symbol) the pair (K, P+K); oracle: len(Marshal) <= 8n+256 for both, |len(K) - len(P+K)| <= 24. A state is a distinct key set; non-trivial = at least 2 keys"
+	r.Rule = "filter mode, nil values, in every option form that asks for it (no Opt argument and all 24 combinations of DedupValue in {nil,false,true} x InnerPrefix, LeafPrefix, Complete in {nil,false} on the small sets; no-Opt, all-explicit-false and Complete=false alone on the large families): all subsets of U(Sigma4,2) up to the tier's size (K(U85,3) in thorough), all scaffolds of the tier, and adversarial families (binary caterpillars n<=5000 with runs 0..3 and 16000 bytes, f-ary caterpillars (every node the same f-label bitmap) for every f = 2..16 x every level count 1..30 (thorough 1..120) x low/high nibble, every-node-has-a-long-step trees, fan-out-11 byte nodes, all-distinct label bitmaps, testkeys sets, regular sets); for every explored K and every prefix P of the tier's list (1..16000 bytes of each alphabet symbol) the pair (K, P+K); oracle: len(Marshal) <= 8n+256 for both, |len(K) - len(P+K)| <= 24. A state is a distinct key set; non-trivial = at least 2 keys"
 	r.Assumptions = []string{"tolerance 24 bytes for a lift: one root step (2 bytes), element count, one presence bit and varint / length-prefix growth; stored key material would add |P| >= 100 for the prefixes that decide"}
 	prefixes := c17Prefixes(sp.sigma, thorough)
 	r.Bounds["prefixes"] = len(prefixes)
